@@ -1,7 +1,7 @@
 """
 C08 -- among alternative answers the student always receives the best-scoring one.
 
-ENUM: every ORDERED tuple of 1..4 distinct alternatives from a pool of 7, x wrong_msg x inputs,
+ENUM: every ORDERED tuple of 1..4 distinct alternatives from a pool of 8, x wrong_msg x inputs,
 for six grader kinds and the same graders used as subgraders.  Oracle by decomposition: the
 result must be the best of the results of identically configured graders that each hold only ONE
 of the alternatives.
@@ -15,7 +15,7 @@ from mitxgraders import (StringGrader, FormulaGrader, NumericalGrader, MatrixGra
 from mitxgraders.exceptions import MITxError
 
 PROPERTY = 'C08'
-RULE = ('every ordered tuple of 1..4 [quick 3] distinct alternatives from a 7-entry pool (credits 1, .5, .3, 0; messages of '
+RULE = ('every ordered tuple of 1..4 [quick 3] distinct alternatives from an 8-entry pool (credits 1, .5, .3, 0; messages of '
         'different and equal lengths; a tuple-valued expect; alternatives matching the same input) x wrong_msg {"", "W"} x '
         'inputs; non-trivial = at least two alternatives in the tuple give different single-alternative results')
 EXPLANATION = 'states = distinct (kind, ordered tuple, wrong_msg, input) cases; transitions = real grader calls'
@@ -35,6 +35,7 @@ def pool_for(e_cat, e_dog, e_emu):
         {'expect': (e_cat, e_emu), 'grade_decimal': 0, 'msg': 'zero!'},
         {'expect': e_emu, 'grade_decimal': 0.3, 'msg': 'n'},
         {'expect': e_dog, 'grade_decimal': 0.3, 'msg': 'k'},
+        {'expect': (e_dog, e_cat), 'grade_decimal': 1, 'msg': 'tup'},     # tuple-valued, full credit: members may earn partial credit
     ]
 
 
@@ -52,6 +53,14 @@ KINDS = {
                    inputs=['[1,2]', '[3,4]', '[5,6]', '[0,0]', '[1,2,3]']),
     'singlelist': dict(make=lambda **kw: SingleListGrader(subgrader=StringGrader(), **kw),
                        expects=('a,b', 'c,d', 'e,f'), inputs=['b,a', 'c,d', 'e,f', 'z,z', 'a,z', 'c']),
+    # members of one expect tuple that earn DIFFERENT partial credit for the same input
+    'singlelist3': dict(make=lambda **kw: SingleListGrader(subgrader=StringGrader(), **kw),
+                        expects=('a,b,c', 'a,b,d', 'x,y,z'), inputs=['a,b,c', 'a,b,d', 'x,y,z', 'a,b,z', 'a,q,q', 'q,q,q']),
+    'matrix_entry': dict(make=lambda **kw: MatrixGrader(entry_partial_credit=0.5, **kw),
+                         expects=('[1,2]', '[1,3]', '[5,6]'), inputs=['[1,2]', '[1,3]', '[5,6]', '[1,0]', '[0,0]']),
+    # suppressed matrix errors come back as zero-grade results: wrong_msg applies to them
+    'matrix_suppressed': dict(make=lambda **kw: MatrixGrader(suppress_matrix_messages=True, **kw),
+                              expects=('[1,2]', '[3,4]', '[5,6]'), inputs=['[1,2]', '[3,4]', '[1,2,3]', '[1,2]+1', '[0,0]', '[[1,2]]']),
 }
 
 
@@ -107,7 +116,7 @@ class Alternatives(Family):
         self.kind = kind
         self.wrapper = wrapper
         self.name = 'alts_%s%s' % (kind, '' if wrapper == 'plain' else '_in_' + wrapper)
-        self.rule = ('%s grader%s: every ordered tuple of 1..4 [quick 3] of the 7 pool alternatives x wrong_msg x inputs %r; '
+        self.rule = ('%s grader%s: every ordered tuple of 1..4 [quick 3] of the 8 pool alternatives x wrong_msg x inputs %r; '
                      'oracle: max over single-alternative graders, longest message among ties, wrong_msg iff best is 0 without message'
                      % (kind, '' if wrapper == 'plain' else ' used as subgrader inside ' + wrapper, KINDS[kind]['inputs']))
 
@@ -130,20 +139,33 @@ class Alternatives(Family):
 
     def cases(self, tier):
         maxk = 3 if tier == 'quick' else 4
-        n = 7
+        n = 8
         for k in range(1, maxk + 1):
             for tup in itertools.permutations(range(n), k):
-                for w in (0, 1):
-                    yield (tup, w)
+                yield tup
 
     def describe(self, case):
-        tup, w = case
+        tup = case
         pool = pool_for(*KINDS[self.kind]['expects'])
-        return {'alternatives': [repr(pool[a]) for a in tup], 'wrong_msg': ('', 'W')[w]}
+        return {'alternatives': [repr(pool[a]) for a in tup], 'wrong_msg': "'W' then ''"}
 
     def check(self, case):
-        tup, w = case
-        wrong_msg = ('', 'W')[w]
+        tup = tuple(case)
+        calls = 0
+        outcome = None
+        nontrivial = False
+        # both wrong_msg settings inside one case ('W' first): a message leaking from one grader into the next is then
+        # visible within the case and replayable
+        for wrong_msg in ('W', ''):
+            o, nt, v, c = self.check_one(tup, wrong_msg)
+            calls += c
+            nontrivial = nontrivial or nt
+            if v:
+                return Result(o, True, v, calls)
+            outcome = outcome or o
+        return Result(outcome or 'skipped', nontrivial, None, calls)
+
+    def check_one(self, tup, wrong_msg):
         answers = tuple(self.pool[a] for a in tup)
         inner = self.make(answers=answers, wrong_msg=wrong_msg) if self.wrapper == 'plain' else self.make(wrong_msg=wrong_msg)
         calls = 0
@@ -168,22 +190,23 @@ class Alternatives(Family):
                         singles = singles + s0
             else:
                 sl = SingleListGrader(answers=[answers], subgrader=inner)
-                out = run(sl, inp.replace(',', ';')) if self.kind == 'singlelist' else run(sl, inp)
+                out = run(sl, inp)
                 full = out
-                if self.kind in ('matrix', 'singlelist'):
+                if self.kind in ('matrix', 'singlelist', 'singlelist3', 'matrix_entry', 'matrix_suppressed'):
                     continue      # commas inside the item collide with the list delimiter; not a meaningful configuration
                 if out[0] == 'ok':
                     # single-item list: grade and message are the item's
                     full = ('ok', {'grade_decimal': out[1]['grade_decimal'], 'msg': out[1]['msg'], 'ok': out[1]['ok']})
             o, v = judge(full, singles, wrong_msg, where, self.name)
             if v:
-                return Result(o, True, v, calls)
+                return o, True, v, calls
             outcome = outcome or o
-        return Result(outcome or 'skipped', True in distinct, None, calls)
+        return outcome, True in distinct, None, calls
 
 
 def families(tier):
-    fams = [Alternatives(k) for k in ('string', 'table', 'formula', 'numerical', 'matrix', 'singlelist')]
+    fams = [Alternatives(k) for k in ('string', 'table', 'formula', 'numerical', 'matrix', 'singlelist', 'singlelist3',
+                                      'matrix_entry', 'matrix_suppressed')]
     fams += [Alternatives(k, 'ListGrader') for k in ('string', 'formula', 'singlelist')]
     fams += [Alternatives(k, 'SingleListGrader') for k in ('string', 'numerical')]
     return fams
